@@ -550,6 +550,9 @@ func litFor(r *core.Rand, t reflect.Type) string {
 	return jsondoc.Valid(r, jsondoc.Opts{MaxDepth: 2, MaxElems: 3, MaxString: 6})
 }
 
+// DocFor is docFor for other monitors.
+func DocFor(r *core.Rand, t reflect.Type) string { return docFor(r, t, 0) }
+
 // docFor builds a type-directed document whose leaves come from hostile literal pools.
 func docFor(r *core.Rand, t reflect.Type, depth int) string {
 	if depth > 5 || r.Chance(1, 12) {
